@@ -127,6 +127,9 @@ func runFile(c *fw.Ctx, f filedrv.File) {
 	// (a callback that reads from or writes to a stream of its own will return io.EOF and friends)
 	for ei, cbErr := range []error{errSentinel, io.EOF, io.ErrUnexpectedEOF, io.ErrShortWrite} {
 		for i := 0; i < total; i++ {
+			if f.Long && i%397 != 0 && i != total-1 {
+				continue
+			}
 			c.Eval(1)
 			desc := fmt.Sprintf("file %s callback fails at record %d with %v", f.Name, i, cbErr)
 			locus := f.Codec + "|callback-error"
@@ -158,6 +161,9 @@ func runFile(c *fw.Ctx, f filedrv.File) {
 	}
 	for si, s := range sites(f) {
 		if f.Big && s.kind == "payload" && si%pstride != 0 {
+			continue
+		}
+		if f.Long && si%1013 != 0 {
 			continue
 		}
 		for bit := 0; bit < 8; bit++ {
@@ -292,7 +298,7 @@ func init() {
 			if tier == "thorough" {
 				n = 4
 			}
-			return fmt.Sprintf("file family {3 schemas} × {null,deflate,snappy} × every composition of <=%d records into blocks (+70-record blocks; + per codec two Big files: a 3000-record highly compressible block, and a 3/90/3-record file whose middle block exceeds 100 KiB on the wire so that the reader's buffer grows mid-block — for Big files payload bytes are flipped at every 23rd / 499th site, all other sites fully), written by the reference writer; per file: intact read under 6 readers (full, 1-byte, data+EOF, *bytes.Buffer, 16-byte *bufio.Reader, every other Read returning (0, nil)) × value/pointer target; files with EMPTY blocks (count 0) first, between and after full blocks; a second complete ReadFile of the same file started from inside the callback of every record index (two live readers of one codec); callback failing at every record index with the caller's own error value and with io.EOF / io.ErrUnexpectedEOF / io.ErrShortWrite; EVERY BIT of every block sync marker, of the header sync (when a block exists), of every snappy CRC, of every compressed payload byte (deflate, snappy) and of the magic flipped one at a time; metadata variants (schema removed, codec absent/unknown spellings, reordered, extra keys, and the metadata map written in every composition of its entries into map blocks, plain and byte-size-prefixed); a case is one damaged or intact file; non-trivial = ReadFile completed and its result was compared with the oracle", n)
+			return fmt.Sprintf("file family {3 schemas} × {null,deflate,snappy} × every composition of <=%d records into blocks (+70-record blocks; + per codec two Big files: a 3000-record highly compressible block, and a 3/90/3-record file whose middle block exceeds 100 KiB on the wire so that the reader's buffer grows mid-block — for Big files payload bytes are flipped at every 23rd / 499th site, all other sites fully), written by the reference writer; per file: intact read under 6 readers (full, 1-byte, data+EOF, *bytes.Buffer, 16-byte *bufio.Reader, every other Read returning (0, nil)) × value/pointer target; files with EMPTY blocks (count 0) first, between and after full blocks; per codec a file of 2400 blocks of changing size (intact reads, callback failures and damage at spread sites only); a second complete ReadFile of the same file started from inside the callback of every record index (two live readers of one codec); callback failing at every record index with the caller's own error value and with io.EOF / io.ErrUnexpectedEOF / io.ErrShortWrite; EVERY BIT of every block sync marker, of the header sync (when a block exists), of every snappy CRC, of every compressed payload byte (deflate, snappy) and of the magic flipped one at a time; metadata variants (schema removed, codec absent/unknown spellings, reordered, extra keys, and the metadata map written in every composition of its entries into map blocks, plain and byte-size-prefixed); a case is one damaged or intact file; non-trivial = ReadFile completed and its result was compared with the oracle", n)
 		},
 		Assumptions: []string{
 			"for a flipped payload bit the claim is made only when the reference decompressor (stdlib flate / golang/snappy + CRC) rejects the damaged payload; flips it accepts are counted, not judged",
